@@ -450,13 +450,127 @@ func runC08(c *engine.Ctx) {
 	checkRecycle(c, "R7")
 }
 
+// allAnon returns the functions that belong to f besides f itself: its closures, the functions and methods it uses as
+// values (a goroutine body or a hook turned into a named method), and the unexported same-package helpers that only f's
+// family calls (steps split out of f) — each with their own closures, transitively. Rules that look for a construct
+// "in f" look in this family, so that a behaviour-preserving split, or a closure turned into a method, moves nothing out
+// of sight.
 func allAnon(f *ssa.Function) []*ssa.Function {
+	if f == nil {
+		return nil
+	}
+	if fam, ok := familyCache[f]; ok {
+		return fam
+	}
+	in := map[*ssa.Function]bool{f: true}
+	var order []*ssa.Function
+	add := func(g *ssa.Function) bool {
+		if g == nil || g.Blocks == nil || in[g] {
+			return false
+		}
+		in[g] = true
+		order = append(order, g)
+		return true
+	}
+	var lexical func(g *ssa.Function)
+	lexical = func(g *ssa.Function) {
+		for _, a := range g.AnonFuncs {
+			if add(a) {
+				lexical(a)
+			}
+		}
+	}
+	lexical(f)
+	if f.Pkg != nil {
+		pkgFns := allFuncsOfPkg(f.Pkg)
+		// static call sites and value uses of every declared function of the package
+		type use struct {
+			by    *ssa.Function
+			value bool
+		}
+		uses := map[*ssa.Function][]use{}
+		for _, g := range pkgFns {
+			engine.ForEachInstr(g, func(x ssa.Instruction) {
+				if call, ok := x.(ssa.CallInstruction); ok {
+					if cf := engine.CalleeFn(call); cf != nil && cf.Pkg == f.Pkg && cf.Parent() == nil {
+						if _, isMC := call.Common().Value.(*ssa.MakeClosure); !isMC {
+							uses[cf] = append(uses[cf], use{g, false})
+						}
+					}
+				}
+				for _, op := range x.Operands(nil) {
+					if op == nil || *op == nil {
+						continue
+					}
+					if call, ok := x.(ssa.CallInstruction); ok && *op == call.Common().Value {
+						if _, isMC := (*op).(*ssa.MakeClosure); !isMC {
+							continue
+						}
+					}
+					var tgt *ssa.Function
+					switch v := (*op).(type) {
+					case *ssa.Function:
+						tgt = unwrapBoundFn(v)
+					case *ssa.MakeClosure:
+						if vf, ok := v.Fn.(*ssa.Function); ok && vf.Synthetic != "" {
+							tgt = unwrapBoundFn(vf)
+						}
+					}
+					if tgt != nil && tgt.Pkg == f.Pkg && tgt.Parent() == nil && tgt.Blocks != nil {
+						uses[tgt] = append(uses[tgt], use{g, true})
+					}
+				}
+			})
+		}
+		for changed := true; changed; {
+			changed = false
+			for _, g := range pkgFns {
+				if in[g] || g.Parent() != nil {
+					continue
+				}
+				obj, _ := g.Object().(*types.Func)
+				if obj == nil || obj.Exported() || len(uses[g]) == 0 {
+					continue
+				}
+				owned := true
+				for _, u := range uses[g] {
+					if !in[u.by] {
+						owned = false
+					}
+				}
+				if owned && add(g) {
+					lexical(g)
+					changed = true
+				}
+			}
+		}
+	}
+	familyCache[f] = order
+	return order
+}
+
+var familyCache = map[*ssa.Function][]*ssa.Function{}
+
+// lexicalAnon: only the closures written inside f (transitively).
+func lexicalAnon(f *ssa.Function) []*ssa.Function {
 	var out []*ssa.Function
 	for _, a := range f.AnonFuncs {
 		out = append(out, a)
-		out = append(out, allAnon(a)...)
+		out = append(out, lexicalAnon(a)...)
 	}
 	return out
+}
+
+// unwrapBoundFn: the declared method behind a bound-method wrapper (x.m used as a value), or f itself.
+func unwrapBoundFn(f *ssa.Function) *ssa.Function {
+	if f.Synthetic != "" && f.Object() != nil {
+		if fo, ok := f.Object().(*types.Func); ok {
+			if r := f.Prog.FuncValue(fo); r != nil {
+				return r
+			}
+		}
+	}
+	return f
 }
 
 // deletesFrom: does f (or its nested closures) call delete() on the map stored in field fv?
